@@ -53,6 +53,7 @@ def run(ctx):
         if rng.random() < 0.5:
             for nm in g:
                 g[nm]["stamp"] = rng.random() < 0.3
+                g[nm]["stamp_early"] = g[nm]["stamp"] and rng.random() < 0.6
                 g[nm]["always"] = rng.random() < 0.15
         # a family of targets with one stem, built by default.<ext>.do rules that write to $3 (their temporary files
         # and arguments must not collide when they are built at the same time)
